@@ -33,7 +33,7 @@ class Contract:
     def __init__(self, file, qualname, props=(), params=None, requires=(), ensures=None, exsures=None,
                  modifies=(), returns=None, loops=None, calls=None, inline=(), globals=None, setup=None,
                  ghost=None, generator=False, closes=False, assumed=False, note="", old=(), locks=None,
-                 cases=None, at_exit=None, exc_kinds=None):
+                 cases=None, at_exit=None, exc_kinds=None, variant=""):
         self.file, self.qualname, self.props = file, qualname, tuple(props)
         self.params = dict(params or {})
         self.requires = list(requires)
@@ -55,6 +55,7 @@ class Contract:
         self.cases = cases
         self.at_exit = at_exit
         self.exc_kinds = exc_kinds or {}
+        self.variant = variant
 
     @property
     def name(self):
